@@ -4,6 +4,7 @@
 //!   stage bfs-one   : one table, token universe U (quick 5, thorough 7 boundary tokens), inserts of every
 //!                     [a,b] in U x 3 replica sets, refreshes with every combination of topology changes
 //!   stage bfs-two   : a table and a materialized view over 3 tokens (hidden-flag interplay across tables)
+//!   stage edge      : tiny universe, odd-but-legal replica lists (empty, same node twice, shard i32::MAX), all schemas
 //!   stage audit     : recorded histories replayed through the production async constructors
 //!   stage payload   : all (first,last) pairs over U u {MIN,MAX} x replica lists through the production parser
 //!   stage walk      : long seeded walk over full i64 (thorough; sampled)
@@ -33,8 +34,10 @@ fn cfg_one(thorough: bool) -> Cfg {
         rsets: rsets(),
         combos: true,
         move_b: true,
-        toggle_d: true,
+        // quick: the joining/leaving node D lives in the table+view search only (same refresh combinations there)
+        toggle_d: thorough,
         recreate_a: true,
+        light_schema_combos: !thorough,
         audit_mod: if thorough { 40 } else { 30 },
         audit_cap: if thorough { 4000 } else { 400 },
         batch: if thorough { 3 } else { 2 },
@@ -46,20 +49,44 @@ fn cfg_two(thorough: bool) -> Cfg {
         name: "table-and-view".into(),
         universe: if thorough { vec![i64::MIN + 1, 0, i64::MAX] } else { vec![i64::MIN + 1, i64::MAX] },
         probes: vec![i64::MAX - 1],
-        tables: vec![("t".into(), false), ("v".into(), true)],
+        // the same table name in two keyspaces; the second one is a materialized view
+        tables: vec![("t".into(), false), ("ks2.t".into(), true)],
         schemas: vec![Schema::AllPresent, Schema::Dropped(0), Schema::Dropped(1), Schema::NotTabletBased],
         // here the never-known uuid is the ONLY replica: a tablet with an empty usable replica list
         // and a set with TWO uuids that may each be unknown or known (C and D join / leave independently or in one refresh)
         rsets: vec![vec![(LABEL_A, 0), (LABEL_B, 1)], vec![(LABEL_X, 0)], vec![(LABEL_C, 2), (LABEL_B, 0)], vec![(LABEL_C, 1), (LABEL_D, 3)]],
         combos: true,
-        // thorough (3 tokens): B's datacenter move is left to the one-table search to keep the tier within minutes
-        move_b: !thorough,
+        // B's datacenter move is left to the one-table search (keeps quick under a minute on a loaded machine, thorough within minutes)
+        move_b: false,
         toggle_d: true,
         // quick: A's re-creation with a new address is left to the one-table search
         recreate_a: thorough,
+        light_schema_combos: !thorough,
         audit_mod: 50,
         audit_cap: 300,
         batch: if thorough { 3 } else { 2 },
+    }
+}
+
+/// Odd-but-legal replica lists on a tiny universe, with every refresh combination and every schema
+/// outcome: an EMPTY replica list (accepted by the parser: a tablet nobody serves, not "unresolved"),
+/// the same node twice with two shards, the largest shard number.
+fn cfg_edge() -> Cfg {
+    Cfg {
+        name: "edge-replica-lists".into(),
+        universe: vec![i64::MIN + 1, i64::MAX],
+        probes: vec![0, i64::MIN],
+        tables: vec![("t".into(), false)],
+        schemas: vec![Schema::AllPresent, Schema::Dropped(0), Schema::NotTabletBased, Schema::KeyspaceGone],
+        rsets: vec![vec![], vec![(LABEL_A, 0), (LABEL_B, 1)], vec![(LABEL_A, 0), (LABEL_A, 7)], vec![(LABEL_B, i32::MAX)], vec![(LABEL_D, 0)]],
+        combos: true,
+        move_b: true,
+        toggle_d: true,
+        recreate_a: true,
+        light_schema_combos: false,
+        audit_mod: 20,
+        audit_cap: 200,
+        batch: 3,
     }
 }
 
@@ -129,12 +156,7 @@ fn audit(r: &Report, m: &TabModel, stage: &str) {
 }
 
 fn h_drv_keyspaces(m: &TabModel) -> Vec<scylla::verif::tablets::KeyspaceSpec> {
-    let mut tables = vec![];
-    let mut views = vec![];
-    for (n, v) in &m.cfg.tables {
-        if *v { views.push(n.clone()) } else { tables.push(n.clone()) }
-    }
-    vec![scylla::verif::tablets::KeyspaceSpec { name: h_drv::tabmodel::KS.into(), tablet_based: true, tables, views }]
+    h_drv::tabmodel::keyspaces(&m.cfg, Schema::AllPresent)
 }
 
 fn run_bfs(r: &Report, cfg: Cfg, stage: &str, wall: u64) -> (u64, u64) {
@@ -207,6 +229,26 @@ fn payload_stage(r: &Report, universe: &[i64]) {
             Ok(PayloadOutcome::Accepted { first_token: -4, last_token: 5, replicas }) if cut == 24 && replicas.is_empty() => accepted += 1,
             Ok(o) => r.violation("payload:truncated-accepted", &format!("payload cut at {cut}/{} bytes gave {o:?}", valid.len()), json!({"leg":"payload_cut","cut":cut})),
             Err(p) => r.violation("payload:panic", &format!("parser panicked on payload cut at {cut}: {p}"), json!({"leg":"payload_cut","cut":cut})),
+        }
+    }
+    // whole custom-payload maps: no tablets key -> nothing to learn; other keys around it do not matter
+    {
+        use std::collections::HashMap;
+        let good = cqlref::tablets::encode_payload(-5, 5, &[(u(1), 1)]);
+        let maps: Vec<(HashMap<String, Vec<u8>>, bool)> = vec![
+            (HashMap::new(), false),
+            (HashMap::from([("other".to_string(), good.clone())]), false),
+            (HashMap::from([("tablets-routing-v2".to_string(), good.clone()), ("TABLETS-ROUTING-V1".to_string(), good.clone())]), false),
+            (HashMap::from([("tablets-routing-v1".to_string(), good.clone())]), true),
+            (HashMap::from([("tablets-routing-v1".to_string(), good.clone()), ("x".to_string(), vec![])]), true),
+        ];
+        for (m, has) in maps {
+            r.eval(1);
+            let got = World::parse_payload_map(&m);
+            let ok = if has { matches!(got, PayloadOutcome::Accepted { first_token: -4, last_token: 5, .. }) } else { got == PayloadOutcome::NoPayload };
+            if !ok {
+                r.violation("payload:map", &format!("custom payload with keys {:?}: parser said {got:?}", m.keys().collect::<Vec<_>>()), json!({"leg":"payload","first":-5,"last":5,"replicas":[]}));
+            }
         }
     }
     // a rejected payload leaves the map untouched
@@ -306,7 +348,7 @@ fn replay(r: &Report, case: &Value) {
                 let res = m.apply_ev(&mut o, &ev).and_then(|_| m.verify(&o).map(|_| ()));
                 println!("  step {i}: {ev:?}");
                 for (t, _) in &m.cfg.tables {
-                    let d = o.world.table_dump(h_drv::tabmodel::KS, t);
+                    let d = o.world.table_dump(h_drv::tabmodel::split_name(t).0, h_drv::tabmodel::split_name(t).1);
                     println!("      {t}: {}", d.map(|d| format!("unknown_flag={} {:?}", d.has_unknown_replicas, d.tablets.iter().map(|t| (t.first_token, t.last_token, t.all.iter().map(|r| (h_drv::tabmodel::label_of(r.host_id), r.shard, r.datacenter.clone().unwrap_or_default())).collect::<Vec<_>>(), t.failed.is_some())).collect::<Vec<_>>())).unwrap_or_else(|| "no entry".into()));
                 }
                 if let Err(w) = res {
@@ -347,7 +389,7 @@ fn main() {
     let want = |s: &str| only.as_deref().is_none_or(|o| o == s);
 
     if want("one") {
-        let (s1, t1) = run_bfs(&r, cfg_one(thorough), "one", r.tier().pick(50, 900));
+        let (s1, t1) = run_bfs(&r, cfg_one(thorough), "one", r.tier().pick(50, 1500));
         if thorough && r.violation_count() == 0 {
             // racy-dedup guard: same search with a different thread count must give the same counts
             let m = TabModel::new(Cfg { audit_mod: 0, ..cfg_one(false) });
@@ -365,6 +407,10 @@ fn main() {
     if want("two") && r.violation_count() == 0 {
         let (s2, _) = run_bfs(&r, cfg_two(thorough), "two", r.args.extra_value("--wall").and_then(|w| w.parse().ok()).unwrap_or(r.tier().pick(30, 600)));
         r.nontrivial(s2);
+    }
+    if want("edge") && r.violation_count() == 0 {
+        let (s3, _) = run_bfs(&r, cfg_edge(), "edge", r.tier().pick(20, 120));
+        r.nontrivial(s3);
     }
     if want("payload") {
         payload_stage(&r, &cfg_one(true).universe);
